@@ -461,10 +461,10 @@ impl Engine for PipelineEngine {
         for profile in &self.profiles {
             let mut r = if self.in_process { solve_inline(&input, true) } else { run_child(profile, &["solve-one"], &input_s, self.watchdog, &[]) };
             if matches!(r, ChildResult::Timeout) && self.prop == "C06" {
-                // slow or hanging? one retry with a five times longer watchdog (at most one
-                // such retry per worker process, so a systematic hang cannot stall the run)
+                // slow or hanging? one retry with a five times longer watchdog (at most three
+                // such retries per worker process, so a systematic hang cannot stall the run)
                 static RETRIES: std::sync::atomic::AtomicU32 = std::sync::atomic::AtomicU32::new(0);
-                if RETRIES.fetch_add(1, std::sync::atomic::Ordering::SeqCst) < 1 {
+                if RETRIES.fetch_add(1, std::sync::atomic::Ordering::SeqCst) < 3 {
                     r = run_child(profile, &["solve-one"], &input_s, self.watchdog * 5, &[("RSV_SNAPSHOTS", "0")]);
                     classes.push(if matches!(r, ChildResult::Timeout) { "timeout_confirmed_with_long_watchdog".to_string() } else { "slow_case_answered_under_long_watchdog".to_string() });
                     if matches!(r, ChildResult::Timeout) {
